@@ -6,7 +6,7 @@
    Dynamic classes call; record layouts and decoding dicts are regenerated from the live
    code into Gen/ElfLayouts.v).  Meaning: Spec/C09Dyn.v (gABI dynamic section, hash
    tables, program header; GNU hash format). *)
-From PV Require Import Base.Outcome Base.Fmt Base.Enum Gen.ElfLayouts Spec.ElfGabi Spec.C09Dyn Model.C09Dynamic.
+From PV Require Import Base.Outcome Base.Fmt Base.Enum Gen.ElfLayouts Gen.C09Hash Spec.ElfGabi Spec.C09Dyn Model.C09Dynamic.
 From PV Require Import Proofs.C09Tables Proofs.C09Tags Proofs.C09Hash Proofs.C09Views Proofs.C09Relocs Proofs.C09Syms Proofs.C09Seg Proofs.C09History Proofs.C09Examples.
 Open Scope string_scope.
 Open Scope list_scope.
@@ -156,10 +156,21 @@ Theorem C09_get_table_offset : forall f ps l val name,
 Proof. exact get_table_offset_spec. Qed.
 Print Assumptions C09_get_table_offset.
 
+(* ---- SysV hash entry width: for EVERY e_machine value and both classes the width structs._create_elf_hash
+   chooses (tabulated by the translator for every machine name x class x byte order) is the psABIs': 64-bit
+   entries for ELFCLASS64 EM_ALPHA and EM_S390, 32-bit words everywhere else; the wide layout is the
+   standard's *)
+Theorem C09_hash_width : forall f,
+  hash_wide f = spec_hash_wide (e_machine (f_eh f)) (f_is64 f) /\
+  forall le, gen_Elf_Hash_wide le = spec_Elf_Hash_w le true.
+Proof. exact (fun f => conj (hash_wide_spec f) gen_Elf_Hash_wide_spec). Qed.
+Print Assumptions C09_hash_width.
+
 (* ---- count_from_hash: the symbol count recovered from a hash table is the true count, for every
    table that is valid for N symbols (C03 has no such lemmas yet; these are stated here) *)
 Theorem C09_count_from_sysv_hash : forall f off N,
-  sysv_valid (f_le f) (seekz (f_img f) off) N = true -> sysv_num_symbols f off = Ok N.
+  sysv_valid (f_le f) (spec_hash_wide (e_machine (f_eh f)) (f_is64 f)) (seekz (f_img f) off) N = true ->
+  sysv_num_symbols f off = Ok N.
 Proof. exact sysv_count. Qed.
 Print Assumptions C09_count_from_sysv_hash.
 
@@ -173,7 +184,9 @@ Print Assumptions C09_count_from_gnu_hash.
 Example C09_count_from_hash_nonvacuous :
   all_bytes ex_gnu = true /\ gnu_valid true true (seekz ([9; 9; 9] ++ ex_gnu) 3) 5 = true /\
   gnu_num_symbols (ex_hash_f ([9; 9; 9] ++ ex_gnu)) 3 = Ok 5 /\
-  sysv_valid true (seekz ([9] ++ ex_sysv) 1) 5 = true /\
+  sysv_valid true false (seekz ([9] ++ ex_sysv) 1) 5 = true /\
+  sysv_valid true true (seekz ([9] ++ ex_sysv64) 1) 5 = true /\ sysv_valid true false (seekz ([9] ++ ex_sysv64) 1) 5 = false /\
+  sysv_num_symbols (ex_hash_f_s390x ([9] ++ ex_sysv64)) 1 = Ok 5 /\
   gnu_valid true true ex_gnu 4 = false /\ gnu_valid true true ex_gnu 6 = false.
 Proof. vm_compute. repeat split. Qed.
 
